@@ -288,6 +288,14 @@ def index_expr(rng: Any, shape: tuple[int, ...], *, arrays: bool = True) -> tupl
     def arr(n: int, k: int | None = None, rank2: bool = False) -> jax.Array:
         k = int(rng.integers(1, n + 2)) if k is None else k
         vals = rng.integers(-n, n, size=(2, k) if rank2 else (k,))
+        if not rank2 and rng.integers(6) == 0:
+            # sorted non-negative arrays: contiguous ranges and look-alikes with a repeated entry and a gap ([0, 0, 2])
+            vals = np.sort(np.abs(vals) % n)
+            if n >= 3:
+                kk = int(rng.integers(3, n + 1))
+                vals = np.arange(kk) + int(rng.integers(0, n - kk + 1))
+                if rng.integers(3):
+                    vals[1] = vals[0]
         return jnp.asarray(vals, dtype=jnp.int32)
 
     if form == 0:
@@ -461,8 +469,9 @@ def a_toeplitz(rng: Any, s: Any) -> Any:
         batch = pick(rng, [s.shape[:-1], (1,) * (len(s.shape) - 1), s.shape[-2:-1]])
     band = dy(rng, tuple(batch) + (k,), dt if not (X64 and rng.integers(3) == 0) else np.float32)   # never wider than the data
     method = pick(rng, ['dense', 'direct', 'fft', 'overlap_save'])
-    if X64 and method in ('overlap_save',) and np.dtype(dt).itemsize < 8:
-        method = 'direct'  # kept out: see DESIGN §5-D4 (judged in C09, not through composites)
+    if method == 'overlap_save' and rng.integers(2):
+        # a user-chosen FFT size: any size >= 2K-1 is admissible (odd sizes, the minimum, sizes below twice the overlap)
+        return SymmetricBandToeplitzOperator(band, s, method=method, fft_size=2 * k - 1 + int(rng.integers(0, 7)))
     return SymmetricBandToeplitzOperator(band, s, method=method)
 
 
@@ -855,6 +864,12 @@ def _expr_kind(rng: Any, kind: str, s: Any, b: Budget, depth: int) -> Any:
         if b.lazy_inverse and b.n_lazy < 1 and size_of(s) <= 8 and rng.integers(3) == 0:
             b.n_lazy += 1
             a = spd(rng, s)
+            if is_sds(s) and len(s.shape) >= 1 and rng.integers(3) == 0:
+                # a bare symmetric-TAGGED operand, positive or negative definite (diagonally dominant bands): CG handles both
+                n = s.shape[-1]
+                sign = 1.0 if rng.integers(2) else -1.0
+                band = np.array([sign * float(rng.integers(4, 7)), 1.0, 0.5][: max(1, min(n, 3))])
+                a = SymmetricBandToeplitzOperator(jnp.asarray(band, dtype=s.dtype), s, method=pick(rng, ['dense', 'direct']))
             inv = a.I
             form2 = int(rng.integers(3))
             if form2 == 0:
@@ -938,13 +953,20 @@ CLASS_RECIPES = [
     'IndexOperator', 'PackOperator', 'MoveAxisOperator', 'RavelOperator', 'ReshapeOperator',
     'ReshapeTransposeOperator', 'BlockRowOperator', 'BlockDiagonalOperator', 'BlockColumnOperator',
     'SymmetricBandToeplitzOperator', 'QURotationOperator', 'QURotationTransposeOperator', 'HWPOperator',
-    'LinearPolarizerOperator', 'ToastObservationMatrixOperator', 'ToastObservationMatrixTransposeOperator',
+    'LinearPolarizerOperator', 'ToastObservationMatrixOperator', 'ToastObservationMatrixTransposeOperator', 'InverseOperator',
 ]
 
 
 def operator_of_class(rng: Any, name: str) -> Any:
     """A small operator whose top-level class is ``name`` (None if the recipe does not apply)."""
     begin_case(rng)
+    if name == 'InverseOperator':
+        # solver-based inverse of a bare symmetric-tagged operand, positive or negative definite (CG handles both)
+        s = S((int(rng.integers(2, 6)),), case_dtype(rng))
+        sign = 1.0 if rng.integers(2) else -1.0
+        band = np.array([sign * float(rng.integers(4, 7)), 1.0, 0.5][: min(s.shape[0], 3)])
+        a = SymmetricBandToeplitzOperator(jnp.asarray(band, dtype=s.dtype), s, method=pick(rng, ['dense', 'direct', 'fft']))
+        return a.I
     u = universe(rng)
     leaf = u[pick(rng, ['v3', 'v4', 'm23', 'm22'])]
     stokes = u[pick(rng, [k for k in u if k.startswith('stokes')])]
